@@ -11,6 +11,13 @@
 // documented truncations of divide_and_truncate / accumulate_loglikelihood never trigger (counts 0 or >= 1, quotients far
 // below 1e4); the one truncation that cannot be avoided by construction (numerator <= max*1e-6 in the Hessian product)
 // is modelled with a guard zone.
+//
+// Clauses: (1) every subset / full data / one-subset object / penalised quantities of a freshly configured object against
+// the reference; (2) 24 orders of first use on fresh objects, bit for bit; (3) re-configuration histories (every second
+// case): one object reaches the case's configuration through 1..4 earlier configurations + set_up() calls (public setters,
+// requests in between) and must then agree with the reference and, bit for bit, with the fresh object of clause (1).
+// Violation keys of (3): history:<quantity>-differs-from-<reference|fresh-object>-after-re-set_up:<settings that must change
+// between two set_up()s, found by reducing the failing history>.
 #include "common/verif.h"
 #include "common/gen.h"
 #include "stir/recon_buildblock/PoissonLogLikelihoodWithLinearModelForMeanAndProjData.h"
@@ -1310,7 +1317,9 @@ run_case(Ctx& ctx)
   // The earlier configurations are perturbations of the last one; nothing is demanded of their results.
   {
     const char* henv = std::getenv("VERIF_C05_HISTORY"); // development aid: "all" / "none"
-    const bool history_case = !orders_only && (henv ? std::string(henv) == "all" : ctx.idx % 2 == 1);
+    // every second case, chosen by a hash of the case number (shards take cases round-robin: idx % 2 would load half of them)
+    const bool hash_bit = ((static_cast<uint64_t>(ctx.idx) * 0x9E3779B97F4A7C15ULL) >> 40) & 1u;
+    const bool history_case = !orders_only && (henv ? std::string(henv) == "all" : hash_bit);
     if (history_case)
       {
         ctx.heartbeat("history-generate");
@@ -1848,22 +1857,26 @@ run_case(Ctx& ctx)
                 default: return "replaced";
                 }
             };
-            auto all_requests = [&](Step sp) {
-              sp.requests = 0x1ffu;
-              sp.redundant = 0;
-              return sp;
-            };
             const int m = res.fail_step; // the step at which it happened (the last one unless a request or set_up threw earlier)
             const bool at_last = m == nsteps - 1;
-            const Step fin = at_last ? steps[m] : all_requests(steps[m]);
-            auto fails_after = [&](const Step& A) { return !run_history({ A, fin }, false, at_last).fail.empty(); };
+            Step fin = steps[m]; // keeps its setter calls with unchanged values: they can be part of the trigger
+            if (!at_last)
+              fin.requests = 0x1ffu;
+            // the predecessor is tried with the requests it had in this history and with all requests
+            auto fails_after = [&](Step A) {
+              if (!run_history({ A, fin }, false, at_last).fail.empty())
+                return true;
+              A.requests = 0x1ffu;
+              return !run_history({ A, fin }, false, at_last).fail.empty();
+            };
             std::string what;
             if (m == 0)
               what = "no-history:first-configuration";
             for (int i = m - 1; i >= 0 && what.empty(); --i)
               {
                 // is this earlier configuration, as the only predecessor, enough?
-                Step A = all_requests(steps[i]);
+                Step A = steps[i];
+                A.redundant = 0;
                 if (!fails_after(A))
                   continue;
                 // 1-minimal set of settings that have to differ from the last configuration (a rejected set_up counts as "needed")
@@ -1879,6 +1892,18 @@ run_case(Ctx& ctx)
                 for (int d = 0; d < NSET; ++d)
                   if (A.v[d] != fin.v[d])
                     what += (what.empty() ? "" : "+") + std::string(set_name[d]) + ":" + direction(d, A.v[d], fin.v[d]);
+                // setters called again with the value they already have (same for objects: an identical new object)
+                for (int d = 0; d < NSET; ++d)
+                  {
+                    if (A.v[d] != fin.v[d] || !((fin.redundant >> d) & 1u))
+                      continue;
+                    const unsigned keep = fin.redundant;
+                    fin.redundant &= ~(1u << d);
+                    if (fails_after(A))
+                      continue;
+                    fin.redundant = keep;
+                    what += (what.empty() ? "" : "+") + std::string(set_name[d]) + ":set-again-to-the-same";
+                  }
                 if (what.empty())
                   what = "repeated-set_up-without-change";
               }
